@@ -32,6 +32,9 @@ pub struct Sc {
     /// arguments per input line (blank separated); 0 or 1 = one argument per line
     #[serde(default)]
     pub words_per_line: usize,
+    /// arguments made of 3-byte characters: the budget is in bytes, not characters
+    #[serde(default)]
+    pub multibyte: bool,
 }
 
 pub struct C06;
@@ -42,8 +45,16 @@ fn template_shape(t: &str) -> (usize, usize) {
     (t.len() - 2 * m, m)
 }
 
-fn arg_bytes(i: usize, len: usize) -> Vec<u8> {
+fn arg_bytes_of(multibyte: bool, i: usize, len: usize) -> Vec<u8> {
     let c = b'a' + (i % 26) as u8;
+    if multibyte {
+        let mut v = Vec::with_capacity(len);
+        while v.len() + 3 <= len {
+            v.extend_from_slice("\u{3042}".as_bytes()); // E3 81 82
+        }
+        v.resize(len, c);
+        return v;
+    }
     vec![c; len]
 }
 
@@ -73,7 +84,7 @@ impl Sc {
         let mut i = 0usize;
         for (c, l) in &self.groups {
             for _ in 0..*c {
-                input.extend_from_slice(&arg_bytes(i, *l));
+                input.extend_from_slice(&arg_bytes_of(self.multibyte, i, *l));
                 i += 1;
                 input.push(if !self.nul && i % w != 0 { b' ' } else { sep });
             }
@@ -244,6 +255,7 @@ impl Property for C06 {
                 initial: vec![],
                 replace: false,
                 words_per_line: 1,
+                multibyte: rng.chance(1, 3),
             };
         }
         if rng.chance(1, 6) {
@@ -288,6 +300,7 @@ impl Property for C06 {
                 initial,
                 replace: true,
                 words_per_line: 1,
+                multibyte: rng.chance(1, 4),
             };
         }
         let mut opts = vec![];
@@ -328,6 +341,7 @@ impl Property for C06 {
             initial,
             replace: false,
             words_per_line,
+            multibyte: rng.chance(1, 5),
         }
     }
 
@@ -362,6 +376,9 @@ impl Property for C06 {
         }
         if sc.words_per_line > 1 {
             rep.probe("max_lines_with_several_words_per_line");
+        }
+        if sc.multibyte && lens.iter().any(|l| *l >= 3) {
+            rep.probe("multibyte_arguments");
         }
         if sc.env_vars > 0 && sc.env_val_len >= 10_000 {
             rep.probe("few_large_environment_variables");
@@ -489,7 +506,7 @@ impl Property for C06 {
                             let mut k = 0;
                             while k < tb.len() {
                                 if tb[k..].starts_with(b"{}") {
-                                    out.extend_from_slice(&arg_bytes(i, l));
+                                    out.extend_from_slice(&arg_bytes_of(sc.multibyte, i, l));
                                     k += 2;
                                 } else {
                                     out.push(tb[k]);
@@ -566,7 +583,7 @@ impl Property for C06 {
                 } else if certain && !reported && explicit_s.map_or(true, |s| base_s + lens[i] + 1 <= s) && lens[i] + 1 <= MAX_ARG_STRLEN && {
                     // the accounting above said "cannot be passed" but xargs passed it: ask the kernel
                     let mut args: Vec<Vec<u8>> = xs.cmd[1..].iter().map(|c| c.as_bytes().to_vec()).collect();
-                    args.push(arg_bytes(i, lens[i]));
+                    args.push(arg_bytes_of(sc.multibyte, i, lens[i]));
                     kernel_accepts(&args, &env)
                 } {
                     rep.probe("accounting_said_unpassable_but_the_kernel_accepts");
